@@ -69,6 +69,10 @@ func (f *Frame) callCommon(c *ssa.CallCommon, in ssa.Instruction, st *PState, rt
 		}
 	}
 	if callee == nil {
+		if tc := ex.P.ContractFor(ex.top); tc != nil && tc.DynPure {
+			ex.vc.trusted["dynamic calls in "+shortFn(ex.top)+" are assumed to modify nothing (dyncalls pure)"] = true
+			return ex.havocVal("dyn", rt)
+		}
 		return f.havocCall("dynamic call", in, st, rt, args)
 	}
 	// external models first
@@ -221,8 +225,10 @@ func (f *Frame) specVarsFor(ct *Contract, fn *ssa.Function, sig *types.Signature
 		vars["self"] = args[0]
 		k = 1
 	} else if sig.Recv() != nil && fn != nil {
-		// receiver is Params[0]
-		vars[fn.Params[0].Name()] = args[0]
+		// receiver is Params[0] (functions of dependencies have no parameter objects)
+		if len(fn.Params) > 0 {
+			vars[fn.Params[0].Name()] = args[0]
+		}
 		vars["self"] = args[0]
 		k = 1
 	}
